@@ -8,7 +8,7 @@ Space   : programs in the subset all three front ends express (lets, one registe
           Four pools, each exhaustive inside its bound:
             S-rich   every legally nested statement forest with <= N nodes over three leaf kinds
                      (prepare_all / gate with literal qubit + number / gate with let-indexed qubit
-                     + let), loop counts {2, let}, subcircuit counts {none, 3, let}, under a header
+                     + let), loop counts {0, 2, let}, subcircuit counts {none, 0, 3, let}, under a header
                      with an anonymous let, a named let and an anonymous register sized by a let;
             S-plain  the same trees with literal counts under `register q[2]`;
             names    0-3 lets and the register, every one of them anonymous or named from
@@ -107,8 +107,8 @@ PLAIN = (
         ("gate", "g", (("item", "q", 1), 0.5)),
         ("gate", "h", ()),
     ),
-    (2,),
-    (None, 3),
+    (0,),  # the boundary counts live here; 2 / 3 / let-valued counts are in RICH
+    (None, 0),
 )
 ALPHABETS = {"rich": RICH, "plain": PLAIN}
 GRAMMARS = {k: TreeGrammar(_rules(len(a[1]), len(a[2]), len(a[3]))) for k, a in ALPHABETS.items()}
@@ -261,7 +261,7 @@ def legal(p):
                 where in ("top", "seq")
                 and not in_sub
                 and not in_par
-                and (s[1] is None or intref(s[1], 1))
+                and (s[1] is None or intref(s[1], 0))
                 and all(ok(c, "seq", True, in_par) for c in s[2])
             )
         return False
